@@ -13,8 +13,8 @@ fn cfgs() -> Vec<Entry> {
     let mut v: Vec<Entry> = Vec::new();
     c!(v, true,"general",L160D,Track,dyn Cloneable);
     c!(v, true,"general",W8,Track,dyn Cloneable);
-    c!(v, true,"general",X24D,Track,dyn Cloneable);
-    c!(v, true,"general",D12D,Track,dyn Cloneable);
+    c!(v, true,"general",X24D,Track,dyn Send + Sync);
+    c!(v, true,"general",D12D,Track,dyn Cloneable + Send);
     c!(v, true,"general",W8D,TrackTight,dyn Cloneable);
     c!(v, true,"general",T3D,TrackTight,dyn Cloneable);
     c!(v, true,"fixed",W8D,Stack<32>,dyn Cloneable);
